@@ -216,7 +216,16 @@ func diag3Sections(r *vlib.Run) {
 		rng := c.Rng
 		var base []Tri
 		var desc string
-		switch rng.Intn(6) {
+		switch rng.Intn(7) {
+		case 6:
+			// vertices that collide in the coordinate hash (see collide.go)
+			var ok bool
+			base, _, ok = collidingBipyramid(rng, xyz(1.5+2*rng.Float64(), 0.5+2*rng.Float64(), 0.2*rng.Float64()), 0.3+0.5*rng.Float64())
+			desc = "hash-colliding-bipyramid"
+			if !ok {
+				base = tetra(xyz(0, 0, 0), xyz(1, 0, 0), xyz(0, 1, 0), xyz(0, 0, 1))
+				desc = "tetra"
+			}
 		case 0:
 			base, desc = touchingBoxes(rng)
 		case 1:
